@@ -338,6 +338,10 @@ ScStrings == IF Thorough THEN IpStrings ELSE StrUpTo(IpTok, 1) \cup IpProbe \cup
 SetupConfSet ==
     { Put(Put(ScBase, f, s), "iptype", ty) : f \in ScFields, s \in ScStrings, ty \in {"ENIMultiIP", "VPCENI"} }
     \cup { [Put(ScBase, "iptype", ty) EXCEPT !.routes = <<s, <<"fd00::/64">> >>, !.hoststack = <<s>>] : s \in ScStrings, ty \in {"ENIMultiIP", "VPCENI"} }
+    (* each list alone as well: the first malformed host-stack CIDR ends the call before the routes are parsed *)
+    \cup { [Put(ScBase, "iptype", ty) EXCEPT !.routes = <<s, <<"fd00::/64">> >>] : s \in ScStrings, ty \in {"ENIMultiIP", "VPCENI"} }
+    \cup { [Put(ScBase, "iptype", ty) EXCEPT !.routes = << <<"10.1.0.0/16">>, s>>] : s \in ScStrings, ty \in {"ENIMultiIP", "VPCENI"} }
+    \cup { [Put(ScBase, "iptype", ty) EXCEPT !.hoststack = << <<"169.254.0.0/16">>, s>>] : s \in ScStrings, ty \in {"ENIMultiIP", "VPCENI"} }
     \cup { [ScBase EXCEPT !.iptype = ty, !.basic = a, !.eni = b, !.pod = c, !.podip = d, !.cidr = e, !.gw = f, !.svc = g, !.enigw = b /\ tr,
                           !.trunk = tr, !.strip = IF tr THEN "vlan" ELSE "", !.routes = r] :
              ty \in {"ENIMultiIP", "VPCENI"}, a \in BOOLEAN, b \in BOOLEAN, c \in BOOLEAN, d \in BOOLEAN, e \in BOOLEAN, f \in BOOLEAN,
